@@ -408,8 +408,50 @@ def chain(n):
 ALIASES = {}
 
 
+# non-mut single-binding lets: id -> init expression (filled by psa.norm); lets rules look through `let old = &ctx[r];`
+LET_INITS = {}
+
+
 def canon(i):
     return ALIASES.get(i, i)
+
+
+def conjuncts(c):
+    """the `&&` conjuncts of a condition, looking through immutable bool locals"""
+    c = resolve(c)
+    if c.get("k") == "binary" and c["op"] == "&&":
+        return conjuncts(c["l"]) + conjuncts(c["r"])
+    return [c]
+
+
+def is_eq_test(c, local, path_suffix, op="=="):
+    """c is `local == <path>` (either order) for a unit variant / constant whose path ends with path_suffix"""
+    c = resolve(c)
+    if c.get("k") != "binary" or c["op"] != op:
+        return False
+    for a, b in ((c["l"], c["r"]), (c["r"], c["l"])):
+        b = peel(b)
+        if is_local(a, local) and b.get("k") in ("def", "ctor") and (callee(b) or b.get("path", "")).endswith(path_suffix):
+            return True
+    return False
+
+
+def param_ids(f):
+    """ids of the plain parameter bindings by position (None for destructured parameters)"""
+    out = []
+    for p in f["params"]:
+        b = pat_bindings(p)
+        out.append(b[0][1] if len(b) == 1 else None)
+    return out
+
+
+def resolve(n, depth=6):
+    """n with reference/deref sugar peeled and immutable single-binding locals replaced by their initialiser"""
+    n = peel(n)
+    while depth > 0 and n.get("k") == "local" and n["id"] in LET_INITS:
+        n = peel(LET_INITS[n["id"]])
+        depth -= 1
+    return n
 
 
 def is_local(n, i=None):
